@@ -1,5 +1,6 @@
 (* Model/Walks.v — bct/algorithms/distance.py findwalks, as the code is now:
-     CIJ = binarize(CIJ); Wq = zeros((n,n,n)); CIJpwr = CIJ; Wq[:,:,1] = CIJ
+     CIJ = binarize(CIJ).astype(float)  (since f1bac33: the products are formed in float64 whatever the input dtype);
+     Wq = zeros((n,n,n)); CIJpwr = CIJ; Wq[:,:,1] = CIJ
      for q in range(2, n): CIJpwr = dot(CIJpwr, CIJ); Wq[:,:,q] = CIJpwr
      twalk = sum(Wq); wlq = sum(sum(Wq,0),0)
    over Z; plus the inductive definition of walks and their exhaustive enumeration.  Definitions only. *)
